@@ -195,6 +195,37 @@ def callableJson (c : Callable) : Json :=
     ("set_property", jo c.setProperty), ("get_property", jo c.getProperty), ("invoker", jo c.invoker),
     ("ctype", jo c.ctype)] ++ docsJson c.docs)
 
+def memberOf (j : Json) : Except String Member := do
+  let b ← j.getObjVal? "body"
+  let k ← (← b.getObjVal? "k").getStr?
+  let body ← match k with
+    | "typed" => do pure (MemberBody.typed (← tyOf (← b.getObjVal? "type")))
+    | "callback" => do pure (MemberBody.callback (← callableOf (← b.getObjVal? "callable")))
+    | "anon" => do pure (MemberBody.anon (← (← b.getObjVal? "tag").getStr?))
+    | _ => throw s!"unknown member body {k}"
+  pure { name := (← optStr j "name"), body := body, readable := (← boolD j "readable" true),
+         writable := (← boolD j "writable" false), bits := (← optStr j "bits"), isPrivate := (← boolD j "private" false),
+         version := (← optStr j "version"), skip := (← boolD j "skip" false),
+         introspectable := (← boolD j "introspectable" true), deprecated := (← optStr j "deprecated"),
+         stability := (← optStr j "stability"), docs := (← docsOf j) }
+
+def memberJson (m : Member) : Json :=
+  Json.mkObj ([("name", jo m.name),
+    ("body", match m.body with
+      | .typed t => Json.mkObj [("k", "typed"), ("type", tyJson t)]
+      | .callback cb => Json.mkObj [("k", "callback"), ("callable", callableJson cb)]
+      | .anon tag => Json.mkObj [("k", "anon"), ("tag", Json.str tag)]),
+    ("readable", Json.bool m.readable), ("writable", Json.bool m.writable), ("bits", jo m.bits),
+    ("private", Json.bool m.isPrivate), ("version", jo m.version), ("skip", Json.bool m.skip),
+    ("introspectable", Json.bool m.introspectable), ("deprecated", jo m.deprecated), ("stability", jo m.stability)]
+    ++ docsJson m.docs)
+
+def membersOf (j : Json) (k : String) : Except String (List Member) := do
+  (← (← j.getObjVal? k).getArr?).toList.mapM memberOf
+
+def xmlListJson (l : List Xml) : Json := Json.arr (l.map xmlJson).toArray
+def memberListJson (l : List Member) : Json := Json.arr (l.map memberJson).toArray
+
 def handle (op : String) : Option Handler :=
   match op with
   | "c07.write_type" => some fun j => do
@@ -262,6 +293,31 @@ def handle (op : String) : Option Handler :=
         (← paramOf (← j.getObjVal? "param"))))
   | "c07.parse_param" => some fun j => do
       pure (exJson paramJson (parseParam (← strOf j "ns") (← xmlOf (← j.getObjVal? "xml"))))
+  | "c07.cycle_members" => some fun j => do
+      -- the members of a record / union: write, parse back (with the array-length loop), write again
+      let ns ← strOf j "ns"
+      let ms ← membersOf j "members"
+      let w1 := writeMembers ns ms
+      let p := match w1 with
+        | .ok xs => parseMembers ns xs
+        | .error e => .error e
+      let w2 := match p with
+        | .ok ms' => writeMembers ns ms'
+        | .error e => .error e
+      let rt := match p with
+        | .ok ms' => ms' == ms.map canonMember
+        | .error _ => false
+      let fix := match w1, w2 with
+        | .ok a, .ok b => (xmlListJson a).compress == (xmlListJson b).compress
+        | _, _ => false
+      pure (Json.mkObj [("w1", exJson xmlListJson w1), ("parsed", exJson memberListJson p),
+        ("wf", Json.bool (ms.all (wfMember ns))), ("field_only", Json.bool (ms.all isFieldElem)),
+        ("not_wf", Json.arr ((ms.filter (fun m => !wfMember ns m)).map (fun m => jo m.name)).toArray),
+        ("write_ok", Json.bool (match w1 with | .ok _ => true | .error _ => false)),
+        ("roundtrip", Json.bool rt), ("fixpoint", Json.bool fix)])
+  | "c07.parse_members" => some fun j => do
+      let kids ← (← (← j.getObjVal? "kids").getArr?).toList.mapM xmlOf
+      pure (exJson memberListJson (parseMembers (← strOf j "ns") kids))
   | "c07.show_int" => some fun j => do pure (jstr (showInt (← intOf j "n")))
   | "c07.parse_int" => some fun j => do
       pure (exJson (fun (i : Int) => toJson i) (parseInt (← strOf j "s")))
